@@ -387,7 +387,7 @@ func execC18Mesh(b []byte) vx.Verdict {
 				continue
 			}
 			n := m.Node(name).N
-			k := 24 + (ev.Svc+ev.Tags)%3*12
+			k := 60 + (ev.Svc+ev.Tags)%3*60
 			var pcs []netceptor.PacketConner
 			for i := 0; i < k; i++ {
 				pc, err := n.ListenPacketAndAdvertise(fmt.Sprintf("t%d-%d", stormCtr, i), nil)
